@@ -1,6 +1,7 @@
 //! Monitors: one module per property. A check for property X runs only X's monitors.
 
 pub mod c01;
+pub mod c02;
 pub mod c03;
 pub mod c04;
 pub mod c05;
@@ -16,6 +17,7 @@ pub mod c15;
 pub mod c16;
 pub mod c17;
 pub mod c18;
+pub mod c19;
 pub mod c20;
 pub mod util;
 
@@ -30,6 +32,7 @@ pub const ALL: &[&str] = &[
 pub fn monitors_for(prop: &str) -> Vec<Box<dyn Monitor>> {
     match prop {
         "C01" => vec![Box::new(c01::C01::default())],
+        "C02" => vec![Box::new(c02::C02)],
         "C03" => vec![Box::new(c03::C03)],
         "C04" => vec![Box::new(c04::C04)],
         "C05" => vec![Box::new(c05::C05)],
@@ -45,6 +48,7 @@ pub fn monitors_for(prop: &str) -> Vec<Box<dyn Monitor>> {
         "C16" => vec![Box::new(c16::C16::default())],
         "C18" => vec![Box::new(c18::C18::default())],
         "C17" => vec![Box::new(c17::C17::default())],
+        "C19" => vec![Box::new(c19::C19)],
         "C20" => vec![Box::new(c20::C20::default())],
         _ => vec![],
     }
